@@ -45,10 +45,10 @@ m("tq-final-quote-twice", "_utils.py", " and string[-1] != extra:", ":", ["C12"]
 # ---- C02
 m("return-old-under-fix", "_snapshot/generic_value.py", "        if flags.fix or flags.create or flags.update or self._old_value is undefined:", "        if self._old_value is undefined:", ["C02", "C07"], "comparison answers the old result under create/fix: test aborts at first failing snapshot (asserting style)")
 m("addx-off", "_align.py", '            result += "x" * g[1]\n            i += 1', '            result += g[0] * g[1]', [], "never produce x (replace): equivalent w.r.t. the guaranteed set (informational)")
-m("dict-insert-pos", "_adapter/dict_adapter.py", "                insert_pos += 1", "                insert_pos += 2", ["C02", "C18"], "off-by-one insert position for dict entries")
+m("dict-insert-pos", "_adapter/dict_adapter.py", "                insert_pos += 1", "                insert_pos += 2", ["C02"], "off-by-one insert position for dict entries")
 m("tuple1-comma", "_change.py", '        if elements == 1 and isinstance(parent, ast.Tuple):', '        if False:', ["C02"], "1-tuple loses its trailing comma after deletion")
 m("delete-wrong-kw", "_adapter/generic_call_adapter.py", "                    kw.value,\n                    self.argument(old_value, kw.arg),", "                    old_node.keywords[0].value,\n                    self.argument(old_value, kw.arg),", ["C02"], "Delete of the wrong keyword")
-m("parens-limit", "_change.py", "            and prev_token.index > left_brace.index\n            and next_token.index < right_brace.index", "", ["C02", "C18"], "paren extension may swallow the call's own parentheses f((x))")
+m("parens-limit", "_change.py", "            and prev_token.index > left_brace.index\n            and next_token.index < right_brace.index", "", ["C02"], "paren extension may swallow the call's own parentheses f((x))")
 m("eq-merge-keeps-old-leaf", "_adapter/value_adapter.py", "        yield Replace(\n            node=old_node,", "        if isinstance(new_value, bool): return new_value\n        yield Replace(\n            node=old_node,", ["C02"], "bool leaves are never rewritten")
 
 
@@ -81,14 +81,14 @@ m("minmax-trim-halfway", "_snapshot/min_max_value.py", "        new_token = valu
 
 # ---- C09
 m("seq-update-drops-insert-when-deleting", "_change.py", '    if new_code or deleted or elements == 1 or len(parent_elements) <= 1:\n        code = ", ".join(new_code)', '    if new_code or deleted or elements == 1 or len(parent_elements) <= 1:\n        code = ", ".join([] if deleted and len(parent_elements) > 2 else new_code)', ["C09", "C05"], "an append is lost when the last element is deleted in the same edit (only when categories are applied together)")
-m("virtual-dict-trim-then-create", "_snapshot/dict_value.py", "                len(self._old_value),\n                new_code,", "                len(self._new_value),\n                new_code,", ["C09", "C05", "C18"], "DictInsert position computed from the new value (differs once keys were trimmed)")
-m("collection-fix-position", "_snapshot/collection_value.py", "                position=len(self._old_value),", "                position=len([v for v in self._old_value if v in self._new_value]),", ["C09", "C05", "C18"], "`in` append position ignores members that are only trimmed in another run")
+m("virtual-dict-trim-then-create", "_snapshot/dict_value.py", "                len(self._old_value),\n                new_code,", "                len(self._new_value),\n                new_code,", ["C09", "C05"], "DictInsert position computed from the new value (differs once keys were trimmed)")
+m("collection-fix-position", "_snapshot/collection_value.py", "                position=len(self._old_value),", "                position=len([v for v in self._old_value if v in self._new_value]),", ["C09", "C05"], "`in` append position ignores members that are only trimmed in another run")
 
 
 # ---- C11
 m("align-tiebreak", "_align.py", "            new_line.append(max(values))", "            new_line.append(min(values) if len(values) == 3 and a == 'b' else max(values))", ["C11"], "alignment loses matches for some elements")
 m("prefix-off-by-one", "_align.py", '    return "m" * start + diff + "m" * end', '    return "m" * start + diff + "m" * end if start < 2 else "m" * (start - 1) + "di" + diff + "m" * end', ["C11"], "last element of the equal prefix is treated as replaced")
-m("no-compare-context", "_adapter/sequence_adapter.py", "        with compare_context():\n            diff = add_x(align(old_value, new_value))", "        diff = add_x(align(old_value, new_value))", ["C18"], "nested snapshots are committed while aligning")
+m("no-compare-context", "_adapter/sequence_adapter.py", "        with compare_context():\n            diff = add_x(align(old_value, new_value))", "        diff = add_x(align(old_value, new_value))", ["C10"], "nested snapshots are committed while aligning")
 m("equal-leaf-rewritten", "_adapter/value_adapter.py", '            flag = "update"', '            flag = "fix" if isinstance(old_value, int) else "update"', ["C11", "C05"], "equal int leaves with non-canonical text are rewritten under fix")
 m("dict-rewrite-whole", "_adapter/dict_adapter.py", "            if not (\n                isinstance(old_node, ast.Dict) and len(old_value) == len(old_node.keys)\n            ):", "            if not (\n                isinstance(old_node, ast.Dict) and len(old_value) == len(old_node.keys) and len(old_value) < 3\n            ):", ["C11"], "dicts with 3+ entries are replaced as a whole")
 m("suffix-strip-off", "_align.py", "        if a == b:\n            end += 1\n        else:\n            break", "        break", [], "no suffix stripping: equivalent (informational)")
@@ -97,8 +97,8 @@ m("suffix-strip-off", "_align.py", "        if a == b:\n            end += 1\n  
 # ---- C10
 m("unmanaged-early-return-off", "_adapter/value_adapter.py", "        if isinstance(old_value, Unmanaged):\n            return old_value", "        if isinstance(old_value, Unmanaged) and old_value == new_value:\n            return old_value", ["C10"], "an inconsistent Is()/dirty value is overwritten by fix")
 m("fstring-branch-off", "_adapter/value_adapter.py", "        if isinstance(old_node, ast.JoinedStr) and isinstance(new_value, str):", "        if isinstance(old_node, ast.JoinedStr) and isinstance(new_value, str) and old_value == new_value:", ["C10"], "a failing f-string is replaced by a literal")
-m("star-first-only", "_adapter/sequence_adapter.py", "            for e in old_node.elts:\n                if isinstance(e, ast.Starred):", "            for e in old_node.elts[:1]:\n                if isinstance(e, ast.Starred):", ["C10", "C18"], "only a leading star-expression freezes the list")
-m("map-unmanaged-no-callargs", "_adapter/generic_call_adapter.py", "            *[adapter_map(arg.value, map_function) for arg in new_args],\n            **{\n                k: adapter_map(kwarg.value, map_function)", "            *[adapter_map(arg.value, map_function) for arg in new_args],\n            **{\n                k: kwarg.value", ["C10", "C18"], "unmanaged values inside constructor keyword arguments are not wrapped")
+m("star-first-only", "_adapter/sequence_adapter.py", "            for e in old_node.elts:\n                if isinstance(e, ast.Starred):", "            for e in old_node.elts[:1]:\n                if isinstance(e, ast.Starred):", ["C10"], "only a leading star-expression freezes the list")
+m("map-unmanaged-no-callargs", "_adapter/generic_call_adapter.py", "            *[adapter_map(arg.value, map_function) for arg in new_args],\n            **{\n                k: adapter_map(kwarg.value, map_function)", "            *[adapter_map(arg.value, map_function) for arg in new_args],\n            **{\n                k: kwarg.value", ["C10"], "unmanaged values inside constructor keyword arguments are not wrapped")
 m("dict-star-after-len", "_adapter/dict_adapter.py", "                    if key is None:", "                    if key is None and len(old_value) == len(old_node.keys):", ["C10"], "revert of the dict ** fix")
 m("inner-default-compare", "_adapter/generic_call_adapter.py", "    if isinstance(value, Unmanaged) or is_unmanaged(value):", "    if False:", ["C10", "C07"], "revert of the default-comparison fix")
 m("inner-aligned-compare-off", "_snapshot/eq_value.py", "        with compare_context():\n            # inner", "        if True:\n            # inner", ["C10"], "revert: inner snapshots compared positionally")
@@ -145,6 +145,15 @@ m("ignore-line-length", "_format.py", '        if "line_length" in config:\n    
 m("ignore-magic-comma", "_format.py", '            mode.magic_trailing_comma = not config["skip_magic_trailing_comma"]', '            pass', ["C20"], "skip-magic-trailing-comma ignored")
 m("ignore-preview", "_format.py", '            mode.preview = config["preview"]', '            pass', ["C20"], "preview ignored")
 m("string-normalization-same-sign", "_format.py", '            mode.string_normalization = not config["skip_string_normalization"]', '            mode.string_normalization = config["skip_string_normalization"]', ["C20"], "skip-string-normalization not inverted")
+
+
+# ---- C18
+m("changes-only-on-create", "_snapshot/eq_value.py", '        return iter(getattr(self, "_changes", []))', "        return iter(self._changes)", ["C18"], "revert: AttributeError for inner snapshots only aligned")
+m("inner-overlap-revert", "_rewrite_code.py", "        if any(inside(new, other) for other in source.replacements):\n            return\n", "", ["C18"], "revert: inner change inside replaced parent overlaps", more=[("_rewrite_code.py", "        source.replacements = [\n            other for other in source.replacements if not inside(other, new)\n        ]\n", "")])
+m("minmax-cmp-raises-revert", "_snapshot/min_max_value.py", "            except Exception:\n                # values which can not be compared", "            except ZeroDivisionError:\n                # values which can not be compared", ["C18"], "revert: raising comparison re-executed at session end")
+m("undefined-new-value-revert", "_snapshot/collection_value.py", "        if self._new_value is undefined:\n            # no value could be recorded (UsageError in clone)\n            return\n", "", ["C18", "C17"], "revert: Collection _get_changes with undefined new value")
+m("check-assert-removed", "_rewrite_code.py", "            assert lhs.range.end <= rhs.range.start, (lhs, rhs)", "            pass", ["C18"], "overlap assertion removed while inner/outer overlap is produced", more=[("_rewrite_code.py", "        if any(inside(new, other) for other in source.replacements):\n            return\n", ""), ("_rewrite_code.py", "        source.replacements = [\n            other for other in source.replacements if not inside(other, new)\n        ]\n", "")])
+m("delete-without-parent-group", "_change.py", "            if isinstance(node, ast.keyword):\n                node = node.parent", "            pass", ["C18", "C02"], "Delete of a keyword argument is grouped under the keyword node")
 
 
 def make_copy(mut):
